@@ -22,6 +22,7 @@ func MapOrder[K comparable, V any](m map[K]V) []K {
 		sort.Slice(keys, func(i, j int) bool { return fmt.Sprint(keys[i]) < fmt.Sprint(keys[j]) })
 	}
 	if cur == nil {
+		permute(keys, MapOrderSeed)
 		return keys
 	}
 	for pos := 0; pos < len(keys)-1; pos++ {
@@ -33,4 +34,42 @@ func MapOrder[K comparable, V any](m map[K]V) []K {
 		}
 	}
 	return keys
+}
+
+// MapOrderSeed selects the iteration order of instrumented map ranges OUTSIDE the scheduler (the
+// enumeration harness): 0 = ascending keys. Maps of up to 3 keys go through all their permutations
+// for seeds 0..5; larger maps: 1 = descending, k >= 2 = ascending rotated by k-1.
+var MapOrderSeed int
+
+func permute[K any](keys []K, seed int) {
+	n := len(keys)
+	if seed <= 0 || n < 2 {
+		return
+	}
+	if n <= 3 {
+		// seed-th permutation in lexicographic order of positions
+		fact := 1
+		for i := 2; i <= n; i++ {
+			fact *= i
+		}
+		k := seed % fact
+		rest := append([]K(nil), keys...)
+		for i := 0; i < n; i++ {
+			fact /= n - i
+			j := k / fact
+			k %= fact
+			keys[i] = rest[j]
+			rest = append(rest[:j:j], rest[j+1:]...)
+		}
+		return
+	}
+	if seed == 1 {
+		for i, j := 0, n-1; i < j; i, j = i+1, j-1 {
+			keys[i], keys[j] = keys[j], keys[i]
+		}
+		return
+	}
+	r := (seed - 1) % n
+	rot := append(append([]K(nil), keys[r:]...), keys[:r]...)
+	copy(keys, rot)
 }
